@@ -1,6 +1,7 @@
 package known
 
 import (
+	"encoding/json"
 	"regexp"
 	"strings"
 
@@ -139,6 +140,37 @@ func init() {
 			}
 		}
 		return false
+	})
+
+	// hex: '~> X.Y' with Y > 0 is evaluated as < X.(Y+1).0 instead of the
+	// documented < (X+1).0.0. Pinned by hex/range_test.go ("Elixir
+	// compatibility - out of range": ~> 1.14 must reject 1.15.7).
+	// Predicate (C05 case = [kind, probe, args]): pessimistic operator on a
+	// two-component base whose minor is not zero.
+	register("hex.pessimistic_two_part_nonzero_minor", func(c Case) bool {
+		if c.Eco != "hex" || len(c.Inputs) != 3 || c.Inputs[0] != "pess" {
+			return false
+		}
+		var args []string
+		if json.Unmarshal([]byte(c.Inputs[2]), &args) != nil || len(args) != 3 {
+			return false
+		}
+		return strings.TrimLeft(args[1], "0") != ""
+	})
+
+	// gem: '~>' on a pre-release base keeps all numeric segments of the base
+	// (~> 1.0.0.rc1 is < 1.0.1) where Gem::Requirement bumps (< 1.1). Pinned by
+	// gem/range_test.go "pessimistic prerelease patch bump". Predicate: the
+	// pessimistic construct has a pre-release argument.
+	register("gem.pessimistic_prerelease_base", func(c Case) bool {
+		if c.Eco != "gem" || len(c.Inputs) != 3 || c.Inputs[0] != "pess" {
+			return false
+		}
+		var args []string
+		if json.Unmarshal([]byte(c.Inputs[2]), &args) != nil || len(args) < 2 {
+			return false
+		}
+		return args[len(args)-1] != ""
 	})
 
 	// pypi: the local version label is ignored by Compare. Pinned by
